@@ -637,6 +637,28 @@ pub fn c10_blackbox(run: &mut Run, lost: &[Pos]) {
 // is played is decided by the polling I/O thread, which takes the moves off the channel.
 // ------------------------------------------------------------------------------------------------
 
+/// The black-box clauses of C11 for one answered go (pure; also used by replays). `mate1` /
+/// `losing` come from the oracle's solver. Returns a description of the violation, if any.
+pub fn c11_judge_played(p: &Pos, mate1: bool, losing: &[Mv], plan_ms: u64, info_lines: &[String], played: Mv) -> (u64, Option<String>) {
+    let mut deepest_in_time = 0u64;
+    let mut witness = String::new();
+    for l in info_lines {
+        if let Ok(i) = parse_info(l, true) {
+            if i.time.map(|t| t < plan_ms).unwrap_or(false) && i.depth > deepest_in_time {
+                deepest_in_time = i.depth;
+                witness = l.clone();
+            }
+        }
+    }
+    if mate1 && deepest_in_time >= 2 && !is_checkmate(&apply(p, played)) {
+        return (deepest_in_time, Some(format!("{} has a mate in one, the search finished its first iteration in time (line {:?} was printed before the allowance of {} ms ended), yet the move played is {} which does not give checkmate", p.to_fen(), witness, plan_ms, played)));
+    }
+    if !mate1 && deepest_in_time >= 3 && losing.contains(&played) {
+        return (deepest_in_time, Some(format!("on {} some moves allow a mate in one and others do not, the search finished its second iteration in time (line {:?} was printed before the allowance of {} ms ended), yet the move played is {} which allows mate in one", p.to_fen(), witness, plan_ms, played)));
+    }
+    (deepest_in_time, None)
+}
+
 /// roots: (position, mate-in-one root?, moves that allow the opponent a mate in one)
 pub fn c11_blackbox(run: &mut Run, roots: &[(Pos, bool, Vec<Mv>)]) {
     let seed = run.seed;
@@ -684,16 +706,7 @@ pub fn c11_blackbox(run: &mut Run, roots: &[(Pos, bool, Vec<Mv>)]) {
             // lines printed before the allowance ended (their own time field, whole ms since the
             // go, is below the plan): the iteration before the deepest such line had finished
             let plan = g.plan_ms as u64;
-            let mut deepest_in_time = 0u64;
-            let mut witness = String::new();
-            for l in &g.info_lines {
-                if let Ok(i) = parse_info(l, true) {
-                    if i.time.map(|t| t < plan).unwrap_or(false) && i.depth > deepest_in_time {
-                        deepest_in_time = i.depth;
-                        witness = l.clone();
-                    }
-                }
-            }
+            let (deepest_in_time, verdict) = c11_judge_played(p, *mate1, losing, plan, &g.info_lines, played);
             let case = json!({"kind": "session", "property": "C11", "script": [format!("position fen {}", p.to_fen6(0, 1)), g.args.clone()], "transcript_tail": s.eng.transcript_text(12)});
             if *mate1 {
                 if acc.distinct.insert(hash64(&format!("bb1|{}|{}", p.to_fen(), g.args))) {
@@ -701,13 +714,9 @@ pub fn c11_blackbox(run: &mut Run, roots: &[(Pos, bool, Vec<Mv>)]) {
                 }
                 if deepest_in_time >= 2 {
                     acc.feature("blackbox_mate_in_1_root_first_iteration_finished_in_time");
-                    if !is_checkmate(&apply(p, played)) {
-                        acc.violation(
-                            format!("C11|played-not-mate|{}|{}", p.to_fen(), g.args),
-                            format!("real binary: {} has a mate in one, '{}' (plan {} ms) let the search finish its first iteration in time (line {:?} was printed before the allowance ended), yet the move played is {} which does not give checkmate", p.to_fen(), g.args, plan, witness, played),
-                            case,
-                        );
-                    }
+                }
+                if let Some(why) = verdict {
+                    acc.violation(format!("C11|played-not-mate|{}|{}", p.to_fen(), g.args), format!("real binary, '{}': {}", g.args, why), case);
                 }
             } else {
                 if acc.distinct.insert(hash64(&format!("bb2|{}|{}", p.to_fen(), g.args))) {
@@ -715,13 +724,9 @@ pub fn c11_blackbox(run: &mut Run, roots: &[(Pos, bool, Vec<Mv>)]) {
                 }
                 if deepest_in_time >= 3 {
                     acc.feature("blackbox_avoidable_mate_root_second_iteration_finished_in_time");
-                    if losing.contains(&played) {
-                        acc.violation(
-                            format!("C11|played-into-mate|{}|{}", p.to_fen(), g.args),
-                            format!("real binary: on {} some moves allow a mate in one and others do not, '{}' (plan {} ms) let the search finish its second iteration in time (line {:?} was printed before the allowance ended), yet the move played is {} which allows mate in one", p.to_fen(), g.args, plan, witness, played),
-                            case,
-                        );
-                    }
+                }
+                if let Some(why) = verdict {
+                    acc.violation(format!("C11|played-into-mate|{}|{}", p.to_fen(), g.args), format!("real binary, '{}': {}", g.args, why), case);
                 }
             }
         }
